@@ -60,6 +60,27 @@ type runStats struct {
 func runOne(t *testing.T, p *Profile, ch *rep.Chooser, fixedCfg *Config, events []Event, r *rep.Report) (v *Viol, rp Replay) {
 	st := runStats{classes: map[string]int64{}}
 	var fatal string
+	// Watchdog in real time (outside the bubble): a goroutine blocked on a leaked
+	// sync.Mutex is not durably blocked, so synctest.Wait() would never return.
+	// A normal execution takes milliseconds; 30 s is a liveness backstop only.
+	var cur *Exec
+	wd := time.AfterFunc(30*time.Second, func() {
+		trace := []string{}
+		last := "start"
+		if cur != nil {
+			trace = append(trace, cur.Trace...)
+			if n := len(cur.Events); n > 0 {
+				last = cur.Events[n-1].Class()
+			}
+		}
+		r.Exhaustive = false
+		r.Capped = "execution wedged (no quiescence within 30 s of real time)"
+		r.Violate(rep.Violation{Oracle: "wedge", Signature: "wedge:server-stopped-making-progress:after=" + last,
+			Detail: fmt.Sprint("trace so far: ", trace), Replay: Replay{Engine: "vtx", Profile: p.Name, Config: rp.Config, Events: append([]Event{}, curEvents(cur)...), Trace: trace}})
+		r.Write()
+		os.Exit(0)
+	})
+	defer wd.Stop()
 	func() {
 		defer func() {
 			if e := recover(); e != nil {
@@ -82,6 +103,7 @@ func runOne(t *testing.T, p *Profile, ch *rep.Chooser, fixedCfg *Config, events 
 				return
 			}
 			x := &Exec{W: w, M: NewModel(cfg), Chans: p.Chans, SkipDeadRelays: p.SkipDeadRelays}
+			cur = x
 			defer func() {
 				rp.Events = x.Events
 				rp.Trace = x.Trace
@@ -104,6 +126,9 @@ func runOne(t *testing.T, p *Profile, ch *rep.Chooser, fixedCfg *Config, events 
 					if v = x.CheckLifecycle(ev); v != nil {
 						return false
 					}
+				}
+				if v = x.CheckTCP(ev); v != nil {
+					return false
 				}
 				if v = x.Sweep(ev); v != nil {
 					return false
@@ -128,6 +153,7 @@ func runOne(t *testing.T, p *Profile, ch *rep.Chooser, fixedCfg *Config, events 
 				}
 			} else if ok {
 				for i := 0; i < p.Depth; i++ {
+					x.refreshViews()
 					menu := p.Menu(x.M, time.Now(), i)
 					if len(menu) == 0 {
 						break
@@ -144,6 +170,7 @@ func runOne(t *testing.T, p *Profile, ch *rep.Chooser, fixedCfg *Config, events 
 			}
 			if ok && p.Drain && !ch.Abort {
 				for range 64 {
+					x.refreshViews()
 					dl := x.M.Deadlines()
 					now := time.Now()
 					var next time.Time
@@ -339,4 +366,12 @@ func serverSideConns(w *World) []string {
 	}
 
 	return out
+}
+
+func curEvents(x *Exec) []Event {
+	if x == nil {
+		return nil
+	}
+
+	return x.Events
 }
